@@ -242,36 +242,40 @@ func Closure(src Store, root string, o WalkOpts) (needs []Need, tags map[string]
 	seen := map[string]bool{}
 	tags = map[string]string{}
 	refOf := ""
-	var visit func(d, why string, isRoot bool)
-	visit = func(d, why string, isRoot bool) {
+	// under: the manifest sits below one that is trusted to be complete; its own presence and
+	// content are then not demanded, but referrers and digest-tags hanging off it still are
+	var visit func(d, why string, isRoot, under bool)
+	visit = func(d, why string, isRoot, under bool) {
 		if seen["m"+d] {
 			return
 		}
 		seen["m"+d] = true
 		raw, _, ok := src.Manifest(d)
 		if !ok {
-			bad = append(bad, "source lacks manifest "+d+" ("+why+")")
+			if !under {
+				bad = append(bad, "source lacks manifest "+d+" ("+why+")")
+			}
 			return
 		}
-		needs = append(needs, Need{Digest: d, Manifest: true, Why: why, ReferrerOf: refOf})
+		if !under {
+			needs = append(needs, Need{Digest: d, Manifest: true, Why: why, ReferrerOf: refOf})
+		}
 		refOf = ""
-		trusted := o.Trusted != nil && o.Trusted(d, isRoot)
-		if !trusted {
-			for _, r := range regmodel.ContentRefs(raw) {
-				switch {
-				case r.Manifest:
-					visit(r.Digest, "entry of "+short(d), false)
-				case r.External && !o.IncludeExternal:
-				default:
-					if _, _, isMan := src.Manifest(r.Digest); isMan && r.Field == "manifests" {
-						// an index entry with an unknown media type that is in fact a manifest
-						visit(r.Digest, "entry of "+short(d), false)
-						continue
-					}
-					if !seen["b"+r.Digest] {
-						seen["b"+r.Digest] = true
-						needs = append(needs, Need{Digest: r.Digest, Why: r.Field + " of " + short(d)})
-					}
+		trusted := under || (o.Trusted != nil && o.Trusted(d, isRoot))
+		for _, r := range regmodel.ContentRefs(raw) {
+			switch {
+			case r.Manifest:
+				visit(r.Digest, "entry of "+short(d), false, trusted)
+			case r.External && !o.IncludeExternal:
+			default:
+				if _, _, isMan := src.Manifest(r.Digest); isMan && r.Field == "manifests" {
+					// an index entry with an unknown media type that is in fact a manifest
+					visit(r.Digest, "entry of "+short(d), false, trusted)
+					continue
+				}
+				if !trusted && !seen["b"+r.Digest] {
+					seen["b"+r.Digest] = true
+					needs = append(needs, Need{Digest: r.Digest, Why: r.Field + " of " + short(d)})
 				}
 			}
 		}
@@ -284,7 +288,7 @@ func Closure(src Store, root string, o WalkOpts) (needs []Need, tags map[string]
 					}
 				}
 				refOf = d
-				visit(rd, "referrer of "+short(d), false)
+				visit(rd, "referrer of "+short(d), false, false)
 				refOf = ""
 			}
 		}
@@ -294,12 +298,12 @@ func Closure(src Store, root string, o WalkOpts) (needs []Need, tags map[string]
 				if strings.HasPrefix(t, prefix) && t != prefix {
 					td, _ := src.Tag(t)
 					tags[t] = td
-					visit(td, "digest-tag "+t[len(t)-4:], false)
+					visit(td, "digest-tag "+t[len(t)-4:], false, false)
 				}
 			}
 		}
 	}
-	visit(root, "root", true)
+	visit(root, "root", true, false)
 	return
 }
 
